@@ -107,6 +107,18 @@ def one(case, rng, d, idx):
     rec["input_is_injected"] = bool(case["overwrite"] and mout and [n for n, _ in mout] == rec["names_in"] and mout[pk][1] == lib.dumps())
     allowed = {"model.pt"} | (set() if case["overwrite"] else {"model_injected.pt"})
     rec["stray"] = sorted(set(os.listdir(work)) - allowed)
+    if not case["overwrite"] and rec["same"][pk]:
+        # second injection from the same unmodified input with a fresh wrapper: still "original + one call"
+        dst2 = os.path.join(work, "model_injected.pt")
+        os.remove(dst2)
+        try:
+            PyTorchModelWrapper(src).inject_payload(payload, dst2, injection="insertion", overwrite=False)
+            m2 = members(dst2)
+            if [n for n, _ in m2] != rec["names_in"] or m2[pk][1] != lib.dumps():
+                rec["same"][pk] = False
+        except Exception as e:  # noqa: BLE001
+            rec["injected_ok"], rec["exc"] = False, "second injection: " + type(e).__name__
+            return rec
     del verif_sink.calls[:]
     try:
         back = torch.load(result, weights_only=False)
